@@ -15,8 +15,10 @@ PROP = dict(
                "success code => remaining' == returned remaining, refunded' == returned counter; revert code => remaining' == "
                "returned, refunded' == 0; anything else => remaining' == 0, refunded' == 0 ('a halted transaction uses its whole gas "
                "limit'); nothing else of the frame result and nothing of the context changes. refund: refunded' == min(counter + "
-               "EIP-7702 refund, spent/5 [London+] | spent/2). eip7623_floor_block (hand transcription of five lines of "
-               "transact_preverified_inner onto the real Gas methods): used' == max(used, floor). output: gas_used == spent - "
+               "EIP-7702 refund, spent/5 [London+] | spent/2). eip7623_floor_block (the EIP-7623 statement of Evm::transact_preverified_inner, "
+               "crates/revm/src/evm.rs, extracted MECHANICALLY as a statement range between the refund and reimburse_caller calls "
+               "and wrapped in a generated function over the real FrameResult / InitialAndFloorGas): gas used' == max(gas used, "
+               "floor) when floor <= limit, refund zeroed when the floor applies, limit and the rest of the result unchanged. output: gas_used == spent - "
                "refunded in every ExecutionResult variant, gas_refunded == the counter, state == the journaled account map, Err iff "
                "an error was recorded. deduct_caller_inner / deduct_caller: balance' == balance -sat (gas_limit*price + blob fee), "
                "EXACT whenever the sender can pay it (the validated precondition); nonce + 1 for calls (saturating at 2^64-1), "
@@ -63,8 +65,8 @@ PROP = dict(
         "(== new(spec, {})), JournaledState::finalize (hands out state and logs, resets)",
         "ASSUMED: Deref/DerefMut of EvmContext is `inner`; Bytes::clone is the same bytes; SuccessOrHalt::from uninterpreted",
         "WIRING (crates/revm/src/evm.rs transact_preverified_inner, dyn handler table): the order load_accounts, deduct_caller, "
-        "first frame with gas_limit - intrinsic, last_frame_return, refund, the EIP-7623 block (transcribed by hand as "
-        "eip7623_floor_block), reimburse_caller, reward_beneficiary, output -- with the SAME Gas value -- and that the handler fields "
+        "first frame with gas_limit - intrinsic, last_frame_return, refund, the EIP-7623 statement (its TEXT is under contract: "
+        "extracted statement range eip7623_floor_block; trusted is only its position between the two anchor calls), reimburse_caller, reward_beneficiary, output -- with the SAME Gas value -- and that the handler fields "
         "are the mainnet functions; PostExecutionHandler::reward_beneficiary doing NOTHING when its Option is None (C22)",
     ],
     assumptions=[
